@@ -32,6 +32,24 @@ class BadBothError(Exception):
         raise RuntimeError("__repr__ is broken")
 
 
+class FalsyError(Exception):
+    """an exception object that is falsy"""
+
+    def __bool__(self):
+        return False
+
+
+class EmptyCollectionError(Exception):
+    """an exception that doubles as an (empty) collection of problems: len() == 0, so it is falsy"""
+
+    def __init__(self, *problems):
+        super().__init__(*problems)
+        self.problems = list(problems)
+
+    def __len__(self):
+        return len(self.problems)
+
+
 class StudentBase(BaseException):
     """user-defined BaseException subclass (not an Exception)"""
 
@@ -59,6 +77,8 @@ _CATALOGUE = {
     'StudentError': (lambda: StudentError("custom failure"), StudentError),
     'EmptyMessage': (lambda: StudentError(), StudentError),
     'NonStrArgs': (lambda: StudentError(42, [1, 2], None), StudentError),
+    'FalsyError': (lambda: FalsyError("falsy"), FalsyError),
+    'EmptyCollectionError': (lambda: EmptyCollectionError(), EmptyCollectionError),
     'BadStrError': (lambda: BadStrError("x"), BadStrError),
     'BadReprError': (lambda: BadReprError("x"), BadReprError),
     'BadBothError': (lambda: BadBothError("x"), BadBothError),
@@ -74,7 +94,7 @@ ORDINARY = ['ValueError', 'KeyError', 'ZeroDivisionError', 'IndexError', 'TypeEr
             'AttributeError', 'NameError', 'OSError', 'OSError2', 'FileNotFoundError',
             'StopIteration', 'AssertionError', 'RecursionError', 'MemoryError', 'ImportError',
             'TimeoutErrorStudent', 'UnicodeDecodeError',
-            'StudentError', 'EmptyMessage', 'NonStrArgs']
+            'StudentError', 'EmptyMessage', 'NonStrArgs', 'FalsyError', 'EmptyCollectionError']
 BROKEN = ['BadStrError', 'BadReprError', 'BadBothError']
 EXITS = ['SystemExit', 'SystemExitInt', 'SystemExitStr']
 BASE = ['KeyboardInterrupt', 'GeneratorExit', 'StudentBase']
